@@ -393,8 +393,13 @@ func runC08(r *Rng, n int, replay string) {
 				id++
 				fc.Text = []string{fmt.Sprintf("[%s] %s(%q) exposing {%s}: primitive call %d (%s) fails -> %s", baseKind, h, arg.P, strings.Join(subset, ","), k, log[k], r2)}
 				fc.Cells = []string{fmt.Sprintf("%s/%s/fault", baseKind, h)}
+				ownWriteClose := strings.HasPrefix(log[k], "file.Close") && h != "Create" && h != "OpenFile"
 				if r2.Kind == "panic" {
 					fc.fail(fc.Text[0]+": panicked", sig+":fault-panic")
+				} else if ownWriteClose && !r2.failed() {
+					// the helper opened this handle for writing itself: a failing Close may have lost the data (write-back
+					// file systems store on Close), so it is never immaterial
+					fc.fail(fc.Text[0]+": the helper reported success although Close of the file it wrote failed", baseKind+":"+h+":fault-silent:file.Close")
 				} else if !r2.failed() && !(obsData(r2) == obsData(got) && snapDiffExact(after, Snapshot(baseFS, cands)) == "") &&
 					!((h == "Create" || h == "OpenFile") && strings.HasPrefix(log[k], "file.Close")) {
 					// (success is acceptable only when the failed call was immaterial: same result and same final state
